@@ -8,7 +8,9 @@ RULE = ("requirements rendered from structures name x extras list x (PEP 440 cla
         "x whitespace layout (blanks wherever PEP 508 allows them, and the canonical layout of str()); mutations of them (delete/insert/"
         "swap incl. IGNORECASE confusables, non-ASCII word characters, Unicode whitespace, newline); every string 'a'+t, |t| <= 4/5 over a "
         "class-representative alphabet; related pairs (PEP 503 name spellings, clause order/spelling, extras order) for ==/hash; "
-        "non-trivial = accepted by Requirement; distinct by input text")
+        "law.r.decompose is demanded outside the D7 class and inside it wherever the exact chain condition (gen_req.chain_ok = ReqExactP.rq_chain_okb) holds; "
+        "law.r.eq also compares the behaviour of the parts of equal requirements (.specifier contains/filter/prereleases on a version battery, "
+        ".marker.evaluate in three environments); non-trivial = accepted by Requirement; distinct by input text")
 ASSUMPTIONS = ["r.eqh compares 'hash(a) == hash(b)' with equality of the model's hash key: two unequal requirements with colliding 61-bit "
                "hashes would be a false alarm (probability ~2^-61 per pair)",
                "str.lower() on non-ASCII characters (canonicalize_name of an extra value inside a marker) is outside the model: inputs with such a character after the first ';' are dropped",
@@ -23,9 +25,15 @@ TRUSTED_EXTRA = ["MText.p_marker / MkModel (marker grammar, literal_eval boundar
 ALPHA = ["1", ".", "-", "[", "]", ",", "(", ")", "@", ";", "=", "<", " ", "*", "+", "\n", "~", "x"]
 
 
-def expected_json(R, marker_text):
-    return json.dumps({"name": R["name"], "extras": R["extras"], "clauses": [G.clause_text(c) for c in R["clauses"]], "url": R["url"],
-                       "marker": marker_text, "d7": None})
+def expected_json(R, marker_text, lay=None):
+    """the structure the string was rendered from; with a layout also the blanks around every clause and the exact D7 condition"""
+    E = {"name": R["name"], "extras": R["extras"], "clauses": [G.clause_text(c) for c in R["clauses"]], "url": R["url"],
+         "marker": marker_text, "d7": None}
+    if lay is not None:
+        E["cw"] = [list(x) for x in lay["cw"]]
+        E["ops"] = [[c[0], c[1]] for c in R["clauses"]]
+        E["chain_ok"] = G.chain_ok(R, lay)
+    return json.dumps(E)
 
 
 def rendered(rng, R, canonical=False):
@@ -123,11 +131,14 @@ def streams(rng, tier):
         canonical = rng.random() < 0.15
         s, lay, mt = rendered(rng, R, canonical)
         if outside_model(s): continue
-        d7 = G.d7_class(R, lay)
         out.append(Case("structured", "r.parse", [s]))
         pool.append(s)
-        if not d7:
-            out.append(Case("law-decompose", "law.r.decompose", [s, expected_json(R, mt)], kind="law"))
+        # outside the D7 class, and inside it whenever the exact chain condition holds, the decomposition law is demanded
+        # (a rejection there is a VIOLATION: match_d7 forgives only layouts where the chain condition fails)
+        E = json.loads(expected_json(R, mt, lay))
+        if not E["chain_ok"]:
+            E["d7"] = [i for i in range(len(R["clauses"]) - 1) if R["clauses"][i][0] == "===" and lay["cw"][i][1] == ""][:1]
+        out.append(Case("law-decompose", "law.r.decompose", [s, json.dumps(E)], kind="law"))
         if rng.random() < 0.5:
             out.append(Case("law-roundtrip", "law.r.roundtrip", [s], kind="law"))
         if rng.random() < 0.4:
@@ -148,7 +159,8 @@ def streams(rng, tier):
         s, lay, mt = rendered(rng, R)
         lay["cw"][i] = (lay["cw"][i][0], "")
         s = G.render(R, lay, mt)
-        E = json.loads(expected_json(R, mt)); E["d7"] = [i]
+        E = json.loads(expected_json(R, mt, lay))
+        E["d7"] = [i] if not E["chain_ok"] else None
         out.append(Case("d7-class", "law.r.decompose", [s, json.dumps(E)], kind="law"))
         out.append(Case("d7-class", "r.parse", [s]))
         out.append(Case("d7-class", "r.rt", [s]))
@@ -182,12 +194,22 @@ def streams(rng, tier):
         out.append(Case("exhaustive", "r.parse", ["a" + t]))
     for t in gen.exhaustive(["1", ".", "*", "+", "a", ",", " ", "=", "r", "-"], 4 if q else 5):
         out.append(Case("exhaustive-clause", "r.parse", ["a==" + t]))
+    for a, b, exp in FIXED_EQ:
+        out.append(Case("law-eq", "law.r.eq", [a, b, exp], kind="law"))
+        out.append(Case("eq-pairs", "r.eq", [a, b]))
+        out.append(Case("eq-hash", "r.eqh", [a, b]))
     for s in FIXED:
         out.append(Case("fixed", "r.parse", [s]))
         out.append(Case("fixed", "r.rt", [s]))
         out.append(Case("law-roundtrip", "law.r.roundtrip", [s], kind="law"))
     return out
 
+
+# equal requirements that both carry a marker / a clause set, spelled differently (ReqMarkerEqP.meq_a / meq_b, ReqSetsLinkP.link_a / link_b)
+FIXED_EQ = [("a; os.name=='x' and extra=='A_b'", "A ;(os_name == \"x\")and( extra == 'a-B')", "T"),
+            ("a>=1.0, ==2.0.0", "A ==2.0,>=1", "T"),
+            ("a[x,Y]>=1.0rc1,!=1.5.* ; python_version < '3' or extra == 'Foo_Bar'", "A [Y ,x] (!=1.5.*, >=1.0c1);python_version<\"3\" or extra=='foo.bar'", "T"),
+            ("a===1.0", "a===1.0.0", "F"), ("a==1.*", "a==1.0.*", "F"), ("a; extra=='A_b'", "a; extra=='A_c'", "F")]
 
 FIXED = ["", " ", "a", " a ", "a\n", "a\n\n", "a \n", "a[]", "a[ ]", "a[x]", "a[x,]", "a[,x]", "a[x y]", "a[x,y]", "a [ x , y ] ", "a[x", "a]", "a()", "a( )",
          "a(>=1)", "a (>=1,<2)", "a(>=1", "a>=1)", "a>=1,", "a,>=1", "a>=1,,<2", "a>=1 <2", "a>=1;", "a;", "a; ", "a@", "a@ ", "a @ u", "a @ u ", "a @ u\n",
@@ -202,13 +224,49 @@ FIXED = ["", " ", "a", " a ", "a\n", "a\n\n", "a \n", "a[]", "a[ ]", "a[x]", "a[
 
 
 # ---- known finding D7: a '===' clause swallows a directly following comma ----
+def chain_ok_of(E):
+    """the exact D7 condition recomputed from the recorded layout (blanks around every clause, operator, operator whitespace)"""
+    ops, cw = E["ops"], E["cw"]
+    chain = False
+    for i, (op, ows) in enumerate(ops):
+        a, b = cw[i]
+        if chain and (a != "" or ows != ""): return False
+        if i == len(ops) - 1: break
+        chain = (chain or op == "===") and b == ""
+    return True
+
+
+def layout_of(text, clauses):
+    """(ops, cw) read back from the rendered text for a recorded clause list (used when the case carries no layout, e.g. the witness line
+    of known_findings.txt): every clause text is located in order; its blanks are the spaces/tabs directly around it"""
+    ops, cw, pos = [], [], 0
+    for c in clauses:
+        k = text.find(c, pos)
+        m = re.match(r"(===|~=|==|!=|<=|>=|<|>)(\s*)", c)
+        if k < 0 or not m: return None
+        i = k
+        while i > pos and text[i - 1] in " \t": i -= 1
+        j = k + len(c)
+        while j < len(text) and text[j] in " \t": j += 1
+        ops.append([m.group(1), m.group(2)]); cw.append([text[i:k], text[k + len(c):j]])
+        pos = j
+    return ops, cw
+
+
 def match_d7(case, impl_obs, model_obs):
     """input class: the rendered clause list has a '===' clause immediately followed by ',' (recorded in the structure the string was
-    rendered from, and visible in the text); observed wrong answer: the valid PEP 508 string is rejected"""
+    rendered from, and visible in the text) AND the exact chain condition of C08_requirement_render_exact fails for the recorded
+    layout (a swallowed clause has a blank after its comma or whitespace after its operator) - where the condition holds the theorem
+    demands acceptance and a rejection is a violation; observed wrong answer: the valid PEP 508 string is rejected"""
     if case.cmd != "law.r.decompose" or impl_obs != "rejected": return False
     try: E = json.loads(case.args[1])
     except Exception: return False
     if not E.get("d7"): return False
+    if "ops" not in E or "cw" not in E:
+        lo = layout_of(case.args[0], E.get("clauses") or [])
+        if lo is None: return False
+        E["ops"], E["cw"] = lo
+    if chain_ok_of(E): return False
     i = E["d7"][0]
     cl = E["clauses"]
     if not (0 <= i < len(cl) - 1 and cl[i].startswith("===")): return False
